@@ -174,7 +174,7 @@ func Universe() []UVal {
 		{Name: "dropnil", Go: DropV{nil}},
 		{Name: "dropdrop", Go: DropV{&DropP{"inner"}}},
 		{Name: "adrops", Go: []any{DropV{2}, DropV{1}, &DropP{"s"}, DropV{nil}}, Small: true},
-		{Name: "ntitle", Go: NTitle("héllo wörld"), Small: true}, {Name: "jsonnum", Go: json.Number("12")}, {Name: "nint", Go: NInt(3)}, {Name: "nfloat", Go: NFloat(2.5)},
+		{Name: "ntitle", Go: NTitle("héllo wörld"), Small: true}, {Name: "jsonnum", Go: json.Number("12")}, {Name: "jsonfrac", Go: json.Number("2.5"), Small: true}, {Name: "jsonbig", Go: json.Number("123456789012345678901234567890")}, {Name: "jsonhuge", Go: json.Number("1e999")}, {Name: "jsonbad", Go: json.Number("12abc")}, {Name: "nint", Go: NInt(3)}, {Name: "nfloat", Go: NFloat(2.5)},
 		{Name: "nbool", Go: NBool(true)}, {Name: "nstrs", Go: NStrs{"b", "a"}}, {Name: "ndict", Go: NDict{"k": 1, "size": 2}}, {Name: "nkmap", Go: NKMap{"k": 1, "a": 2}, Small: true},
 		{Name: "nkmaps", Go: []NKMap{{"k": 2}, {"k": 1}, {}}}, {Name: "anynkmaps", Go: []any{NKMap{"k": 2}, map[string]any{"k": 1}, NDict{"k": 0}}}, {Name: "ntitles", Go: []NTitle{"b", "a"}},
 		{Name: "embednil", Go: EmbedOuter{Name: "outer"}, Small: true}, {Name: "embednilptr", Go: &EmbedOuter{}}, {Name: "embedset", Go: EmbedOuter{EmbedInner: &EmbedInner{Count: 4}}},
